@@ -36,7 +36,8 @@ func NewPacketFactoryCopy() *PacketFactoryCopy {
 		},
 		payloadPool: &sync.Pool{
 			New: func() any {
-				buf := make([]byte, maxPayloadLen)
+				// room for the largest payload plus the RFC 4588 OSN prefix
+				buf := make([]byte, maxPayloadLen+rtxSsrcByteLength)
 
 				return &buf
 			},
